@@ -56,8 +56,8 @@ LimitRefuses(surface, kind, absent, lim) ==
      ELSE IF kind = "filter" THEN lim < 0
      ELSE lim <= 0
 
-\* the limit the store operation runs with when the request passes
-WireLimit(absent, lim) == IF absent \/ lim = 0 THEN ApiDefLimit ELSE IF lim > ApiMaxLimit THEN ApiMaxLimit ELSE lim
+\* the limit the store operation runs with when the request passes (the store rule itself reads "<= 0" as the default)
+WireLimit(absent, lim) == IF absent \/ lim <= 0 THEN ApiDefLimit ELSE IF lim > ApiMaxLimit THEN ApiMaxLimit ELSE lim
 
 \* A by-filter mutation names a state only among those the operation is defined for.
 StateRefuses(kind, st, allowed) == kind = "filter" /\ st # "" /\ st \notin allowed
@@ -67,6 +67,7 @@ StateRefuses(kind, st, allowed) == kind = "filter" /\ st # "" /\ st \notin allow
 SelectorRefuses(kind, form, rt, managed) ==
   kind = "filter" /\ form = "global" /\ ((rt = "" /\ managed # {}) \/ rt \in managed)
 
+\* What the layer MAY refuse: every request-validation case above.
 Refuses(surface, kind, form, audit, absent, lim, tids, st, allowed, rt, managed) ==
   \/ AuditRefuses(kind, audit)
   \/ (kind = "ids" /\ IdsRefuse(tids))
@@ -74,12 +75,20 @@ Refuses(surface, kind, form, audit, absent, lim, tids, st, allowed, rt, managed)
   \/ StateRefuses(kind, st, allowed)
   \/ SelectorRefuses(kind, form, rt, managed)
 
+\* What the layer MUST refuse: only what the documentation promises (audit reason required; managed ownership
+\* enforcement).  For the id-list shape, the limit spelling and a state outside the operation's set, passing the
+\* request on is just as good for C14, because the operator rule of Queue.tla is total on such arguments (blank ids
+\* name nothing, a limit <= 0 is the default and one above the maximum is the maximum, a state outside the set selects
+\* nothing) and the trace specification then holds the answer and the post-state to that rule.
+MustRefuse(kind, form, audit, rt, managed) ==
+  AuditRefuses(kind, audit) \/ SelectorRefuses(kind, form, rt, managed)
+
 (***************************************************************************)
 (* Design check (OperApiMC): whatever passes the layer is inside the       *)
 (* store contract the operator rule is stated for - a limit in 1..1000, a  *)
 (* state the operation is defined for (or none), an id list of 1..1000     *)
 (* non-blank entries - and a scoped form is never refused for its          *)
-(* selector.                                                               *)
+(* selector; what must be refused may be refused.                          *)
 (***************************************************************************)
 PassOK(surface, kind, form, audit, absent, lim, tids, st, allowed, rt, managed) ==
   ~Refuses(surface, kind, form, audit, absent, lim, tids, st, allowed, rt, managed) =>
@@ -87,4 +96,6 @@ PassOK(surface, kind, form, audit, absent, lim, tids, st, allowed, rt, managed) 
      /\ (kind = "filter" => st = "" \/ st \in allowed)
      /\ (kind = "ids" => Len(tids) \in 1..ApiMaxIds /\ \A k \in DOMAIN tids : tids[k] # "")
      /\ (kind \in {"ids", "filter"} => audit)
+MustInMay(surface, kind, form, audit, absent, lim, tids, st, allowed, rt, managed) ==
+  MustRefuse(kind, form, audit, rt, managed) => Refuses(surface, kind, form, audit, absent, lim, tids, st, allowed, rt, managed)
 =============================================================================
